@@ -73,6 +73,20 @@ class Forwarder:
         return cond
 
 
+def producer_rules(fx, rep, text, sources, floor):
+    """sources: list of (module name, origin label, regex over 'rule/key'); runs those property modules with a Forwarder
+    so that the selected instances become rule P1 of the calling check"""
+    import importlib
+    rep.rule('P1', text)
+    n = 0
+    for mod, origin, select in sources:
+        fw = Forwarder(rep, 'P1', select, origin)
+        importlib.import_module('rules.' + mod).run(fx, fw)
+        n += fw.n
+    rep.check(n >= floor, 'P1', 'producer-instances-evaluated', '-', '%d instances of other checks\' rules evaluated as producer rules' % n, 'only %d producer-rule instances evaluated, expected at least %d (anchor lost)' % (n, floor))
+    return n
+
+
 class Report:
     def __init__(self, pid, tier, seed, level):
         self.pid, self.tier, self.seed, self.level = pid, tier, seed, level
